@@ -151,7 +151,8 @@ def run_batch(run_seed, base_seed: int, n_runs: int | None, budget_s: float, wor
 
 
 def write_replay(prop: str, seed, case: dict, violation: dict, extra: dict | None = None) -> str:
-    os.makedirs(os.path.join(VERIF, "replays"), exist_ok=True)
+    rdir = os.environ.get("GEOSIM_REPLAY_DIR") or os.path.join(VERIF, "replays")
+    os.makedirs(rdir, exist_ok=True)
     body = {"property": prop, "seed": seed, "expected": {k: violation.get(k) for k in
                                                           ("prop", "oracle", "op", "signature", "detail", "step")},
             "case": case, "geometer_sha256": source_hashes()}
@@ -159,7 +160,7 @@ def write_replay(prop: str, seed, case: dict, violation: dict, extra: dict | Non
         body.update(extra)
     blob = json.dumps(body, indent=1, sort_keys=True, default=_json_default)
     h = hashlib.sha256(blob.encode()).hexdigest()[:10]
-    path = os.path.join(VERIF, "replays", f"{prop}-{seed}-{h}.json")
+    path = os.path.join(rdir, f"{prop}-{seed}-{h}.json")
     with open(path, "w", encoding="utf-8") as f:
         f.write(blob)
     return path
